@@ -44,7 +44,7 @@ def receiver_class(e):
     if e[0] in ('upvar', 'param'):
         return 'owned:' + str(e[2])
     # the writer handed back by the previous request's close() (element of the tuple in Some(..))
-    if any(y[0] == 'variant' and y[2] == 'Some' for y in ir.walk(e)) and any(
+    if any(y[0] == 'variant' for y in ir.walk(e)) and any(
             y[0] == 'call' and 'Instrumented' in y[1] for y in ir.walk(e)):
         return 'owned:returned-by-close'
     return 'other:' + ir.show(e)[:60]
